@@ -1043,6 +1043,28 @@ func (se *specEnv) call(n *SCall) Value {
 			se.fail("jsondecode of non-sequence")
 		}
 		return e.fromTerm(T, c.App("jsonDecode_"+sortName(T), sortOf(T), e.seqTerm(se.st, sq)), "jsondecode")
+	case "pristine":
+		// pristine(p): p (a pointer, possibly inside an interface value) points to
+		// a variable of this call that still holds the zero value it was
+		// allocated with -- a decode target that cannot carry earlier data
+		v := se.eval(n.Args[0])
+		if iv, ok := v.(*IfaceV); ok {
+			res := c.True()
+			for _, al := range iv.Alts {
+				pv, isP := al.Val.(*PtrV)
+				if !isP {
+					res = c.And(res, c.Not(al.Cond))
+					continue
+				}
+				res = c.And(res, c.Implies(al.Cond, se.pristinePtr(pv)))
+			}
+			return boolV(res)
+		}
+		pv, ok := v.(*PtrV)
+		if !ok {
+			se.fail("pristine of a non-pointer")
+		}
+		return boolV(se.pristinePtr(pv))
 	case "loopvar":
 		// loopvar("time.Duration"): the loop-carried variable of that type, when
 		// the loop has exactly one (bound by the loop the invariant belongs to)
@@ -1616,4 +1638,17 @@ func (e *Exec) strBytes(s *smt.Term) *smt.Term {
 		c.BVSle(bv64(c, 0), ln), c.BVSle(ln, c.BVC(maxLen, 64)),
 		c.Forall([]*smt.Term{k}, c.Eq(c.App("seq_at8", smt.BV(8), sb, k), c.App("str_at", smt.BV(8), s, k))))
 	return sb
+}
+
+
+func (se *specEnv) pristinePtr(pv *PtrV) *smt.Term {
+	c := se.e.C
+	res := c.True()
+	for _, al := range pv.Alts {
+		ok := al.Loc != nil && len(al.Loc.Path) == 0 && !al.Loc.Obj.Pre && al.Loc.Obj.zeroInit != nil && se.st.mem[al.Loc.Obj] == al.Loc.Obj.zeroInit
+		if !ok {
+			res = c.And(res, c.Not(al.Cond))
+		}
+	}
+	return res
 }
